@@ -30,7 +30,10 @@ CFG = dict(
          "no proposal ever (rounds up to the role maximum + 1), rounds advanced by the real Controller.OnTimeout at the real RoundTimeout deadlines; every broadcast "
          "(proposals with round-change and prepare justifications, round changes with justifications, prepares, commits, decided aggregates) plus the spec-test-kit "
          "pre/post-consensus partial-signature messages is fed in emission order to ONE fresh real validator at receive offsets 0 / 0.3 s / 1.5 s; oracle: verdict "
-         "reject => violation; in the happy scenarios at offset 0: anything but accept => violation; every call is also diffed against the Lean model",
+         "reject => violation; in the happy scenarios at offset 0: anything but accept => violation; every call is also diffed against the Lean model; "
+         "steady schedules: the SAME peer sees the same (validator, role, every signer) perform complete real duties over 6 (thorough: 9, n=4 and 7) consecutive "
+         "epochs, one duty per epoch at a slot moving inside the epoch and a variant with two duties in every other epoch, for the duty-count-limited roles "
+         "(attester, aggregator, validator registration, voluntary exit): every message must be accepted",
     trusted_base=["the simulated network loops every broadcast back to its sender and delivers FIFO (or shuffled) — a mock of libp2p pubsub",
                   "logical send times follow the real RoundTimeout rule (base 1/3, 2/3 of the slot, 0 for the proposer)"],
     assumptions=["timing: messages of round r are sent at or after the round r-1 timer fired; the instance starts at or after the slot start",
